@@ -42,7 +42,7 @@ def decPGroups (s : String) : Option (List (Bytes × List Label)) :=
 
 def flagNames : List String := ["isBinary", "isSubrepo", "sandbox", "needsTransitiveDeps", "outputIsComplete", "stamp",
   "isFilegroup", "isTextFile", "isRemoteFile", "isLocal", "srcListFiles", "exitOnError", "preBuild", "postBuild",
-  "testSandbox", "isTest"]
+  "testSandbox", "testNoOutput", "isTest"]
 
 def setFlag (t : Target) : String → Option Target
   | "isBinary" => some { t with isBinary := true }
@@ -60,6 +60,7 @@ def setFlag (t : Target) : String → Option Target
   | "preBuild" => some { t with preBuild := true }
   | "postBuild" => some { t with postBuild := true }
   | "testSandbox" => some { t with testSandbox := true }
+  | "testNoOutput" => some { t with testNoOutput := true }
   | "isTest" => some { t with isTest := true }
   | _ => none
 
@@ -72,13 +73,14 @@ def applyTok (ctxOK tgtOK : Bool) (st : Ctx × Target) (tok : String) : Option (
   let (c, t) := st
   match tok.splitOn "=" with
   | [k, v] =>
-    let ctxKey := k = "runtime" || k = "config" || k = "fallback" || k = "environ"
+    let ctxKey := k = "runtime" || k = "config" || k = "fallback" || k = "environ" || k = "hashcheckers"
     if ctxKey then
       if !ctxOK then none else
       match k with
       | "runtime" => if v = "1" then some ({ c with runtime := true }, t) else none
       | "config" => (unhx v).map fun b => ({ c with config := b }, t)
       | "fallback" => (unhx v).map fun b => ({ c with fallback := b }, t)
+      | "hashcheckers" => (decList v).map fun l => ({ c with hashCheckers := l }, t)
       | _ => (decKVs v).map fun m => ({ c with environ := m }, t)
     else if !tgtOK then none else
     match k with
@@ -167,7 +169,7 @@ def wellFormed (c : Ctx) (t : Target) : Bool :=
   c.environ.all (fun kv => envNameOK kv.1 && !kv.2.contains 0) &&
   t.licences.all trimmed && nodupB t.licences &&
   (t.isTest || (t.testOutputs.isEmpty && t.testCommand.isEmpty && t.testCommands.isNone &&
-                t.testArgsPlaceholder.isEmpty && !t.testSandbox)) &&
+                t.testArgsPlaceholder.isEmpty && !t.testSandbox && !t.testNoOutput)) &&
   t.entryPoints.all (fun e => t.namedOuts.all fun g => e.1 != g.1) &&
   (!t.isFilegroup || t.entryPoints.all (fun e => t.namedSrcs.all fun g => e.1 != g.1)) &&
   t.label != ⟨[], [], []⟩ && t.label != ⟨[], [], originalName⟩
